@@ -456,7 +456,7 @@ func runC13Hist(r *fw.Run, h *c13Hist) {
 }
 
 func runC13(r *fw.Run) {
-	n := r.Pick(600, 4000)
+	n := r.Pick(600, 10000)
 	maxOps := r.Pick(12, 40)
 	workers := 8
 	hists := make([]*c13Hist, n)
